@@ -168,8 +168,6 @@ impl FlushWorker {
                             let mut segs = segment_ids.write().unwrap();
                             if !segs.contains(&segment_name) {
                                 segs.push(segment_name.clone());
-                                #[cfg(sneldb_verif)]
-                                crate::verif::step("flush.published", &format!("\"shard\":{shard_id},\"seg\":{segment_id}"));
                                 if tracing::enabled!(tracing::Level::DEBUG) {
                                     debug!(
                                         target: "sneldb::flush",
@@ -181,6 +179,10 @@ impl FlushWorker {
                                 }
                             }
                         }
+                        // (outside the live-list lock, so that a test can park the worker here
+                        // without blocking readers of the list)
+                        #[cfg(sneldb_verif)]
+                        crate::verif::step("flush.published", &format!("\"shard\":{shard_id},\"seg\":{segment_id}"));
 
                         // Mark as verified and clear passive buffer
                         if track_lifecycle {
